@@ -118,7 +118,7 @@ class Cell(NullCell):
         depths = b''
         hashes = b''
         for ref in self.refs:
-            depths += ref._max_depth.to_bytes(2, 'big')
+            depths += ref.get_depth().to_bytes(2, 'big')
             hashes += ref.hash
         return result + depths + hashes
 
